@@ -7,6 +7,7 @@ import (
 	"fmt"
 	"os"
 	"path/filepath"
+	"strings"
 	"testing"
 	"time"
 
@@ -168,6 +169,17 @@ func tailLines(s string, n int) string {
 }
 
 // multiDefectCases: several simultaneous defects of each class, hand-built.
+// manyServices: n services over seven import paths first used inside the services section (a size at which a tool might
+// start to work in parallel).
+func manyServices(n int) string {
+	var sb strings.Builder
+	sb.WriteString("meta: {pkg: app}\nservices:\n")
+	for i := 0; i < n; i++ {
+		fmt.Fprintf(&sb, "  s%04d: {constructor: \"example.com/p%d/lib%d.New\", arguments: [%d]}\n", i, i%7, (i*5)%11, i)
+	}
+	return sb.String()
+}
+
 func multiDefectCases(runs int) []c08Case {
 	y := func(s string) []File { return []File{{Name: "a.yaml", Content: s}} }
 	return []c08Case{
@@ -182,6 +194,7 @@ func multiDefectCases(runs int) []c08Case {
 		{Files: y("parameters:\n  p1: \"%x1%\"\n  p01: \"%x01%\"\n  p001: \"%x001%\"\n  id18446744073709551616: \"%y%\"\n  id18446744073709551617: \"%y%\"\nservices:\n  s7: {constructor: New, arguments: [\"@g7\", \"@g07\", \"@g007\"]}\n  s07: {constructor: New, arguments: [\"@g007\", \"@g7\"]}\n  s007: {constructor: New, fields: {F1: \"@h1\", F01: \"@h01\", F001: \"%z001%\"}}\n"), Runs: runs, Labels: []string{"multi:missing-names-equal-under-natural-order"}},
 		{Files: y("services:\n  s1:\n    constructor: NewX\n    tags: [{name: 5, priority: \"high\"}, {name: [a], priority: 1.5}]\n  s2:\n    constructor: NewX\n    tags: [{priority: \"x\", name: {a: 1}}]\n"), Runs: runs, Labels: []string{"multi:one-tag-object-with-two-type-defects"}},
 		{Files: y("services:\n  s1:\n    constructor: NewX\n    calls: [[1, 2, 3], [M, x, y]]\n    scope: [a]\n    getter: {a: 1}\n    todo: maybe\n"), Runs: runs, Labels: []string{"multi:one-service-with-several-type-defects"}},
+		{Files: y(manyServices(1100)), Runs: 4, Labels: []string{"valid:1100-services-over-many-imports"}},
 		{Files: y("parameters:\n  a: \"%m1% %m2%\"\n  b: \"%m3%\"\nservices:\n  s1: {constructor: NewX, arguments: [\"@g1\", \"%m4%\", \"@g2\"], fields: {B: \"@g3\", A: \"%m5%\"}}\n  s2: {constructor: NewX, calls: [[M, [\"@g4\", \"%m6%\"]]], tags: [t]}\ndecorators:\n  - {tag: t, decorator: Dec, arguments: [\"@g5\", \"%m7%\"]}\n  - {tag: t, decorator: Dec, arguments: [\"@g6\"]}\n"), Runs: runs, Labels: []string{"multi:missing-names"}},
 		{Files: y("parameters:\n  \"bad 1\": 1\n  \"bad 2\": [1]\n  ok: {a: 1}\nservices:\n  \"bad svc\": {}\n  s1: {constructor: \"not a func\", getter: MustX, tags: [t, t, \"bad tag\"], fields: {\"1a\": 1, \"2b\": [1]}, calls: [[\"M-\", [[1]]]]}\n  s2: {value: \"{}\", type: \"**\", arguments: [1]}\ndecorators:\n  - {tag: \"bad tag\", decorator: \"not a func\", arguments: [[1]]}\n  - {tag: \"\", decorator: \"\"}\n"), Runs: runs, Labels: []string{"multi:grammar"}},
 		{Files: y("parameters:\n  a: \"%x(%\"\n  b: \"%unknown()%\"\n  c: \"%\"\n  d: \"%a b%\"\n  e: \"%f()% %g()%\"\n"), Runs: runs, Labels: []string{"multi:tokens"}},
